@@ -3,10 +3,11 @@
    thread that moved, the number of operations it has finished, the lock owner, the keys of the
    strong dict (in order), the keys of the weak dict with the liveness of their referents, and
    the cull counters are compared; at the end every thread's results (identity pattern of the
-   objects, exception classes) and the contents of the two dicts. *)
+   objects, exception classes) and the contents of the two dicts.  Both modes of the connection
+   (cache=True and cache=False) are replayed. *)
 From Coq Require Import List ZArith Bool Arith.
 From Lib Require Import CorrLib.
-From Model Require Import CacheConc.
+From Model Require Import CacheConc CacheConcSpec.
 Import ListNotations.
 
 Record obsstate := {
@@ -18,6 +19,7 @@ Record tstep := { st_t : nat; st_pc : pc; st_done : nat; st_obs : option obsstat
 Inductive ores := OObj (tok : nat) (i : Z) | OExc (x : option exn) | ONone | ODropped.
 
 Record case := {
+  c_cache : bool;                   (* the `cache` option of the connection (CacheFactory.doCache) *)
   c_freq : Z; c_frac : nat; c_rows : list Z; c_progs : list (list op);
   c_init : obsstate;
   c_trace : list tstep;
@@ -25,7 +27,7 @@ Record case := {
   c_strong : list (Z * nat);        (* key, token *)
   c_weak : list (Z * nat);          (* key, token: live referents only *)
   c_valid : bool;                   (* the run ended regularly and the labels are those of the model *)
-  c_skip : bool                     (* a configuration outside the model (cache=False): judged by the oracle only *)
+  c_skip : bool                     (* a configuration outside the model: judged by the oracle only (none at present) *)
 }.
 
 Definition observe (s : state) : obsstate :=
@@ -39,11 +41,21 @@ Definition obs_eqb (a b : obsstate) : bool :=
   list_eqb (fun x y => Z.eqb (fst x) (fst y) && Bool.eqb (snd x) (snd y)) (ob_weak a) (ob_weak b) &&
   Z.eqb (ob_cc a) (ob_cc b) && Nat.eqb (ob_co a) (ob_co b).
 
+(* the one conjunct of the guard that is an assumption about the runs rather than the exclusion of a known race:
+   when a cache=False get deletes a weak entry (line "F142") the entry it saw dead under the lock is still there and
+   still dead.  The replay checks it on every executed step. *)
+Definition dead_assumption_ok (s : state) (t : nat) : bool :=
+  match t_pc (s_thr s t) with
+  | F142 => seen_dead_still s t
+  | _ => true
+  end.
+
 (* replay: None = disagreement; Some (s, true) = the model stopped describing the run *)
 Fixpoint replay (s : state) (last : obsstate) (tr : list tstep) : option (state * bool) :=
   match tr with
   | [] => Some (s, false)
   | x :: r =>
+      if negb (dead_assumption_ok s (st_t x)) then None else
       match step s (st_t x) with
       | None => None
       | Some s' =>
@@ -109,7 +121,7 @@ Definition final_ok (s : state) (c : case) : bool :=
 
 Definition agree (c : case) : bool :=
   c_valid c && (c_skip c ||
-  let s0 := init (c_freq c) (c_frac c) (c_rows c) (c_progs c) in
+  let s0 := initc (c_cache c) (c_freq c) (c_frac c) (c_rows c) (c_progs c) in
   obs_eqb (observe s0) (c_init c) &&
   match replay s0 (c_init c) (c_trace c) with
   | None => false
@@ -119,7 +131,7 @@ Definition agree (c : case) : bool :=
 
 (* the same run, asking whether the model stopped describing it (reported, not a disagreement) *)
 Definition left_model (c : case) : bool :=
-  match replay (init (c_freq c) (c_frac c) (c_rows c) (c_progs c)) (c_init c) (c_trace c) with
+  match replay (initc (c_cache c) (c_freq c) (c_frac c) (c_rows c) (c_progs c)) (c_init c) (c_trace c) with
   | Some (_, true) => true
   | _ => false
   end.
